@@ -18,6 +18,7 @@ import (
 	gogotypes "github.com/gogo/protobuf/types"
 
 	sdk "github.com/cosmos/cosmos-sdk/types"
+	"github.com/cosmos/cosmos-sdk/types/bech32"
 
 	"github.com/irismod/service/types"
 )
@@ -211,12 +212,27 @@ func (c *Chain) ctxOf(b []byte, what string, anom *[]string) int {
 }
 
 func (c *Chain) accOfBech32(s string, what string, anom *[]string) string {
-	a, err := sdk.AccAddressFromBech32(s)
+	// (decoded without the 20-byte length rule: the module stores whatever address it was given)
+	_, a, err := bech32.DecodeAndConvert(s)
 	if err != nil {
 		*anom = append(*anom, fmt.Sprintf("C18 %s: %q is not an address", what, s))
 		return "?" + s
 	}
 	return c.Name(a)
+}
+
+// knownPrefixes lists the known addresses that are a prefix of b, longest first.  Keys that
+// concatenate raw address bytes without a length can only be read back against the accounts
+// of the history; a key that can be read in two ways is reported as ambiguous (C18).
+func (c *Chain) knownPrefixes(b []byte) [][]byte {
+	var r [][]byte
+	for a := range c.NameOf {
+		if len(a) > 0 && len(a) <= len(b) && string(b[:len(a)]) == a {
+			r = append(r, []byte(a))
+		}
+	}
+	sort.Slice(r, func(i, j int) bool { return len(r[i]) > len(r[j]) })
+	return r
 }
 
 // OutputKind classifies a response output by the harness's own reading of the output schema
@@ -327,22 +343,39 @@ func (c *Chain) ProjectCtx(ctx sdk.Context) *State {
 				Avail: b.Available, Dtime: modelTime(b.DisabledTime),
 			})
 		case 0x03:
-			// owner(20) | service | 0x00 | provider(20)
-			if len(body) < 42 || body[len(body)-21] != 0 {
-				*anom = append(*anom, fmt.Sprintf("C18 owner-binding key %x malformed", key))
-				continue
+			// owner | service | 0x00 | provider
+			var reads [][3]string
+			for _, o := range c.knownPrefixes(body) {
+				rest := body[len(o):]
+				if i := bytes.IndexByte(rest, 0); i > 0 {
+					if _, ok := c.NameOf[string(rest[i+1:])]; ok {
+						reads = append(reads, [3]string{c.Name(o), string(rest[:i]), c.Name(rest[i+1:])})
+					}
+				}
 			}
-			st.OBind = append(st.OBind, [3]string{c.Name(body[:20]), string(body[20 : len(body)-21]), c.Name(body[len(body)-20:])})
+			if len(reads) != 1 {
+				*anom = append(*anom, fmt.Sprintf("C18 owner-binding key %x can be read in %d ways", key, len(reads)))
+			}
+			if len(reads) > 0 {
+				st.OBind = append(st.OBind, reads[0])
+			}
 		case 0x04:
 			var o gogotypes.BytesValue
 			cdc.MustUnmarshalBinaryBare(val, &o)
 			st.POwner = append(st.POwner, PORec{P: c.Name(body), O: c.Name(o.Value)})
 		case 0x05:
-			if len(body) != 40 {
-				*anom = append(*anom, fmt.Sprintf("C18 owner-provider key %x malformed", key))
-				continue
+			var reads [][2]string
+			for _, o := range c.knownPrefixes(body) {
+				if _, ok := c.NameOf[string(body[len(o):])]; ok {
+					reads = append(reads, [2]string{c.Name(o), c.Name(body[len(o):])})
+				}
 			}
-			st.OProv = append(st.OProv, [2]string{c.Name(body[:20]), c.Name(body[20:])})
+			if len(reads) != 1 {
+				*anom = append(*anom, fmt.Sprintf("C18 owner-provider key %x can be read in %d ways", key, len(reads)))
+			}
+			if len(reads) > 0 {
+				st.OProv = append(st.OProv, reads[0])
+			}
 		case 0x06:
 			var p types.Pricing
 			cdc.MustUnmarshalBinaryBare(val, &p)
@@ -453,11 +486,18 @@ func (c *Chain) ProjectCtx(ctx sdk.Context) *State {
 		case 0x18:
 			var co sdk.Coin
 			cdc.MustUnmarshalBinaryBare(val, &co)
-			if len(body) < 20 || string(body[20:]) != co.Denom {
-				*anom = append(*anom, fmt.Sprintf("C18 earned-fees key %x does not match coin %s", key, co))
-				continue
+			var reads [][]byte
+			for _, a := range c.knownPrefixes(body) {
+				if string(body[len(a):]) == co.Denom {
+					reads = append(reads, a)
+				}
 			}
-			st.Earned = append(st.Earned, EFRec{K: c.Name(body[:20]), N: c.amount(sdk.Coins{co}, "earned fees", anom)})
+			if len(reads) != 1 {
+				*anom = append(*anom, fmt.Sprintf("C18 earned-fees key %x (coin %s) can be read in %d ways", key, co, len(reads)))
+			}
+			if len(reads) > 0 {
+				st.Earned = append(st.Earned, EFRec{K: c.Name(reads[0]), N: c.amount(sdk.Coins{co}, "earned fees", anom)})
+			}
 		case 0x19:
 			var co sdk.Coin
 			cdc.MustUnmarshalBinaryBare(val, &co)
